@@ -304,3 +304,27 @@ End Actions.
 (** no bar draws to a terminal of its own: every bar is detached (hidden) or a member *)
 Definition no_own_term (s : sys) : Prop :=
   forall b, match b_target (get_bar s b) with TTerm _ => False | _ => True end.
+
+(* ------------------------------------------------------------------ run-level statements *)
+(** the model run and an abstract run side by side: after every call the invariants hold and the
+    ordering vector is the image of the abstract list *)
+Inductive SimRun (W H : N) (fails : N -> bool) : sys -> aspec -> list (N * op) -> Prop :=
+| SR_nil s a : MInv s -> Refines s a -> SimRun W H fails s a []
+| SR_cons s a now o r rest :
+    MInv s -> Refines s a ->
+    SimRun W H fails (step_sys W H fails s now o) (a_step r a o) rest ->
+    SimRun W H fails s a ((now, o) :: rest).
+
+(** initial configurations: any bars (detached or with their own terminal), an empty MultiProgress *)
+Definition init_ok (s : sys) : Prop :=
+  ms_members (s_mp s) = [] /\ ms_free (s_mp s) = [] /\ ms_order (s_mp s) = []
+  /\ forall b, is_member s b = false.
+
+(** thread interleavings (as in Pos.v): [Merge ts l] = l is an interleaving of the lists ts *)
+Inductive Merge {A} : list (list A) -> list A -> Prop :=
+| Merge_nil : forall ts, Forall (fun t => t = []) ts -> Merge ts []
+| Merge_cons : forall pre x t post l,
+    Merge (pre ++ t :: post) l -> Merge (pre ++ (x :: t) :: post) (x :: l).
+
+(** the row counters of the multi target: rows the next draw erases + kept rows above them *)
+Definition region_count (m : mstate) : N := target_n (ms_target m) + ms_zombie_lines m.
